@@ -193,7 +193,8 @@ func (w *World) buildOp(op *Op) *BuiltOp {
 	case EntRaise:
 		ent := w.acct(op.Peer)
 		if wl := w.Ent.SortedWhitelist(); len(wl) > 0 {
-			if a := w.addrByKey(wl[op.Peer%len(wl)]); a.Acct != nil {
+			// a bulk-repeated raise rotates through the whitelisted purchasers (orders of several purchasers interleave)
+			if a := w.addrByKey(wl[(op.Peer+w.RepeatIdx)%len(wl)]); a.Acct != nil {
 				ent = a
 			}
 		}
